@@ -89,7 +89,9 @@ impl<'a> ScriptGen<'a> {
         } else {
             json!([])
         };
-        let payload = Binary::from(serde_json::to_vec(&json!({"nonce": self.nonce(), "script": rs})).unwrap());
+        // (very rarely a payload far beyond anything ordinary)
+        let pad = if rng.chance(1, 150) { "x".repeat(140_000) } else { String::new() };
+        let payload = Binary::from(serde_json::to_vec(&if pad.is_empty() { json!({"nonce": self.nonce(), "script": rs}) } else { json!({"nonce": self.nonce(), "script": rs, "pad": pad}) }).unwrap());
         let has_alw = self
             .reg
             .get(owner_cid)
@@ -121,6 +123,7 @@ impl<'a> ScriptGen<'a> {
                         1 => ("wasm".to_string(), "n".to_string()),
                         2 => (format!("e{}", rng.below(3)), "_n".to_string()),
                         3 => ("wasm-e".to_string(), format!("k{}", rng.below(3))),
+                        4 | 5 => (format!("bare{}", rng.below(3)), String::new()),
                         _ => (format!("e{}", rng.below(3)), "n".to_string()),
                     };
                     steps.push(Step::Event { ty, k, v: self.nonce().to_string() })
@@ -352,7 +355,7 @@ impl<'a> ScriptGen<'a> {
             0 | 1 => out.push(Step::SaveRemote { slot: rng.pick(&slots).to_string(), addr: peer.addr.clone(), ty: rng.pick(&tys).clone(), form: rng.below(2) as u8 }),
             4 => {
                 // any string is an address as far as the handle is concerned
-                const ODD: [&str; 12] = ["", "we\"ird", "back\\slash", "tab\there", "line\nbreak", "uni\u{e9}\u{4e16}", "ctl\u{1}x", "sp ace/colon:", "trail ", "nl\n", " lead", "nbsp\u{a0}"];
+                const ODD: [&str; 15] = ["a", "7", "\u{e9}", "", "we\"ird", "back\\slash", "tab\there", "line\nbreak", "uni\u{e9}\u{4e16}", "ctl\u{1}x", "sp ace/colon:", "trail ", "nl\n", " lead", "nbsp\u{a0}"];
                 let all: Vec<String> = rt::registry::all().into_iter().map(|(k, _)| k.clone()).collect();
                 // also: long strings, and long strings that differ from one another in a single byte
                 let addr = match rng.below(4) {
